@@ -158,7 +158,7 @@ def native_operator(kind, dim, nPe, **kw):
             wJ = np.asarray(g.Get_weightedJacobian_e_pg(MatrixType.rigi)); dN = np.asarray(g.Get_dN_e_pg(MatrixType.rigi))
             A = rng.normal(size=(dim, dim))
             got = Bilinear.GradU_A_GradV(g, A)
-            want = np.einsum("ep,epki,kl,eplj->eij", wJ, dN, A, dN)
+            want = np.einsum("ep,epkj,kl,epli->eij", wJ, dN, A, dN)
         elif kind == "UV":
             dof_n = kw.get("dof_n", 1)
             wJ = np.asarray(g.Get_weightedJacobian_e_pg(MatrixType.mass)); N = np.asarray(g.Get_N_pg_rep(MatrixType.mass, dof_n))
@@ -432,7 +432,9 @@ def ob_operator(kind, dim, nPe, form="scalar", dof_n=1, canary=False):
         Afull = {"homogeneous": gen.einsum("ij,ep->epij", sp.arr("A0"), sp.full((NE, NPG), 1)),
                  "e": gen.einsum("eij,ep->epij", sp.arr("Ae"), sp.full((NE, NPG), 1)), "ep": sp.arr("Aep")}[form]
         got = fns["GradU_A_GradV"](me, A, sp.arr("kep"))
-        want = gen.einsum("ep,ep,epki,epkl,eplj->eij", sp.arr("kep"), wJ, dN, Afull, dN)
+        # a(u, v) = coef grad u . A . grad v ; entry [i, j] belongs to the TEST function N_i and the TRIAL function N_j (the convention of every assembled matrix:
+        # (K u)_i = a(u, v_i)), i.e. grad N_j . A . grad N_i -- for a non-symmetric A this is not its transpose
+        want = gen.einsum("ep,ep,epkj,epkl,epli->eij", sp.arr("kep"), wJ, dN, Afull, dN)
     elif kind == "UV":
         got = fns["UV"](me, coef, dof_n)
         want = gen.einsum("ep,ep,pki,pkj->eij", kk, wJ, N, N)
